@@ -663,15 +663,18 @@ fn fuzz_plan(prop: &str) -> Vec<(&'static str, u64)> {
     let plan: Vec<(&'static str, u64)> = match prop {
         "C01" => vec![("all-kinds", 300_000), ("lists-dense", 300_000)],
         "C02" => vec![("tree", 150_000), ("flat", 150_000)],
-        "C03" => vec![("tree-compound", 200_000)],
-        "C10" => vec![("prefix-branches", 150_000)],
+        "C03" => vec![("tree-compound", 200_000), ("relations", 150_000)],
+        "C08" => vec![("fd-heads", 150_000)],
+        "C09" => vec![("diseq-chains", 150_000), ("fd-multi-binding", 100_000)],
+        "C10" => vec![("prefix-branches", 150_000), ("late-domains", 150_000)],
+        "C12" => vec![("everyg", 150_000)],
         "C16" => vec![("fd-full", 300_000)],
         "C17" => vec![("fd-full", 300_000)],
         "C18" => vec![("window", 500_000)],
-        "C19" => vec![("clpz", 500_000)],
+        "C19" => vec![("clpz", 500_000), ("branches", 300_000)],
         "C20" => vec![("tree-compound", 150_000)],
         "C21" => vec![("terms", 400_000)],
-        "C22" => vec![("tree", 200_000)],
+        "C22" => vec![("tree", 200_000), ("late-duplicates", 200_000)],
         "C23" => vec![("tree-large", 100_000), ("fd-large", 100_000), ("search-large", 60_000)],
         _ => vec![],
     };
